@@ -346,3 +346,117 @@ func c14JudgeGetter(entry string, err error, segs []string, exists int) (core.Re
 	// a reference that cannot be resolved may be reported for the name it refers to ("zz")
 	return core.Fail("sweep", "PATH-MISSING "+entry, fmt.Sprintf("addressed '%s' (the first %d segments exist): %s", strings.Join(segs, "."), exists, firstLine(err.Error()))), false
 }
+
+// lists that are the root of a config (or are reached with Child) and are merged under a list policy: an entry
+// keeps telling its real position when it fails to convert.
+func c14ListRoots() *core.Space {
+	pols := []struct {
+		Name string
+		Opt  []ucfg.Option
+	}{{"default", nil}, {"append", []ucfg.Option{ucfg.AppendValues}}, {"prepend", []ucfg.Option{ucfg.PrependValues}}, {"replace", []ucfg.Option{ucfg.ReplaceValues}}}
+	holders := []string{"the list is the root", "the list is reached with Child(\"l\")", "the list is reached with Child(\"o.l\")"}
+	radices := []int{len(holders), len(pols), 4, 4, int(numC14Loads)}
+	mkList := func(n int, tag string) L {
+		l := L{}
+		for i := 0; i < n; i++ {
+			if i%2 == 0 {
+				l = append(l, fmt.Sprintf("%s%d", tag, i))
+			} else {
+				l = append(l, M{"port": fmt.Sprintf("%s%d", tag, i)})
+			}
+		}
+		return l
+	}
+	return &core.Space{
+		Name: "list-roots-merged-under-list-policies",
+		Size: product(radices...),
+		Text: func(i int) string {
+			d := mixedRadix(i, radices...)
+			return fmt.Sprintf("%s: %v merged with %v under %s; every entry read with Int / unpacked into []int or []struct{Port int}; load kind %d", holders[d[0]], mkList(d[2], "old"), mkList(d[3], "new"), pols[d[1]].Name, d[4])
+		},
+		Exec: func(i int) core.Result {
+			d := mixedRadix(i, radices...)
+			var res core.Result
+			pi := core.Guard(func() {
+				opts := []ucfg.Option{ucfg.PathSep(".")}
+				load := c14Load(d[4])
+				old, nw := mkList(d[2], "old"), mkList(d[3], "new")
+				var lst *ucfg.Config
+				var src, prefix string
+				var err error
+				switch d[0] {
+				case 0:
+					if load == loadYAMLFile && len(old) == 0 {
+						res = core.Result{Skipped: true}
+						return
+					}
+					lst, src, err = c14LoadList(old, load, opts)
+				case 1:
+					var c *ucfg.Config
+					c, src, err = c14LoadCfg(M{"l": old, "k": 1}, load, opts)
+					if err == nil {
+						lst, err = c.Child("l", -1, opts...)
+						prefix = "l."
+					}
+				case 2:
+					var c *ucfg.Config
+					c, src, err = c14LoadCfg(M{"o": M{"l": old}, "k": 1}, load, opts)
+					if err == nil {
+						lst, err = c.Child("o.l", -1, opts...)
+						prefix = "o.l."
+					}
+				}
+				if err != nil {
+					res = core.Fail("load", "BUILD", err.Error())
+					return
+				}
+				mopts := append(append([]ucfg.Option{}, opts...), pols[d[1]].Opt...)
+				if src != "" {
+					mopts = append(mopts, ucfg.MetaData(ucfg.Meta{Source: src}))
+				}
+				if err := lst.Merge(nw, mopts...); err != nil {
+					res = core.Fail("merge", "BUILD", err.Error())
+					return
+				}
+				n, _ := lst.CountField("")
+				judged := 0
+				for idx := 0; idx < n; idx++ {
+					// a string entry fails to convert at its own path, an object entry at <path>.port
+					var errs []error
+					_, e1 := lst.Int("", idx, opts...)
+					errs = append(errs, e1)
+					if ch, cerr := lst.Child("", idx, opts...); cerr == nil {
+						_, e2 := ch.Int("port", -1, opts...)
+						errs = append(errs, e2)
+					}
+					for _, e := range errs {
+						if e == nil {
+							continue
+						}
+						got := c14Named(e)
+						want := fmt.Sprintf("%s%d", prefix, idx)
+						if got != want && got != want+".port" {
+							res = core.Fail("getter", "PATH-MISSING entry of a merged list", fmt.Sprintf("entry %d of %d: expected the message to name '%s' (or '%s.port'): %s", idx, n, want, want, firstLine(e.Error())))
+							return
+						}
+						judged++
+					}
+				}
+				res = core.Result{Nontrivial: judged > 0, Outcome: fmt.Sprintf("%d entries", n)}
+			})
+			if pi != nil {
+				return apiPanic("c14", pi)
+			}
+			return res
+		},
+	}
+}
+
+func c14LoadList(data L, load c14Load, opts []ucfg.Option) (*ucfg.Config, string, error) {
+	if load == loadMeta {
+		c, err := ucfg.NewFrom(data, append([]ucfg.Option{ucfg.MetaData(ucfg.Meta{Source: "test.yml"})}, opts...)...)
+		return c, "test.yml", err
+	}
+	c, err := ucfg.NewFrom(data, opts...)
+	return c, "", err
+}
